@@ -21,7 +21,7 @@ ASSUMPTIONS = ['the bound 3*timeouts + 10 s separates bounded from blocked under
                'the harness installs a SIGTERM handler in the shard so that a self-directed SIGTERM becomes an observation instead of killing the check']
 SHRINK = 'none'
 TIME_BUDGET = {'quick': 170, 'thorough': 1700}
-REQUIRED = {'quick': {'beh:swallow': 20, 'beh:sleep': 15, 'beh:gil': 15, 'beh:stop': 15, 'beh:coop': 20, 'beh:finished': 15, 'beh:norun': 10, 'beh:linger': 15, 'beh:host_vanished': 15, 'stopped_child_continued': 40, 'force_true_on_uncooperative': 30,
+REQUIRED = {'quick': {'beh:swallow': 20, 'beh:sleep': 15, 'beh:gil': 15, 'beh:stop': 15, 'beh:coop': 20, 'beh:finished': 15, 'beh:norun': 10, 'beh:linger': 15, 'beh:host_vanished': 15, 'beh:stop_mid_send': 15, 'stopped_child_continued': 40, 'force_true_on_uncooperative': 30,
                       'calls_after_death>=2': 40},
             'thorough': {'beh:swallow': 200, 'beh:sleep': 150, 'beh:gil': 80, 'beh:stop': 80, 'force_true_on_uncooperative': 300}}
 _T = [0, 0.2, 1]
@@ -57,8 +57,10 @@ def strategy(tier):
                                 'beh': st.sampled_from(['coop', 'swallow', 'sleep', 'gil', 'stop', 'finished', 'norun', 'linger']), 'ops': _ops(False)})
     # the most unresponsive child of all: its whole host vanishes (control connection reset / closed, data connection silent; engine FAKEHOST)
     stc = st.fixed_dictionaries({'kind': st.sampled_from(['process', 'p_process', 'remote', 'p_remote']), 'beh': st.just('stop'), 'ops': _ops_stop()})
+    # the child is stopped while it is blocked half way through handing over a result much bigger than the pipe buffer
+    bms = st.fixed_dictionaries({'kind': st.just('process'), 'beh': st.just('stop_mid_send'), 'ops': st.one_of(_ops(False), _ops_stop())})
     hv = st.fixed_dictionaries({'kind': st.sampled_from(['remote', 'p_remote']), 'beh': st.just('host_vanished'), 'ctrl': st.sampled_from(['rst', 'fin', 'rst', 'fin', 'rst', 'fin', 'rst', 'fin', 'rst', 'silent']), 'ops': _ops(False)})
-    return st.one_of(th, pr, pr, pr, pr, pr, pr, hv, stc)
+    return st.one_of(th, pr, pr, pr, pr, pr, pr, hv, stc, bms)
 
 
 def setup_shard(ctx):
@@ -85,6 +87,7 @@ def run_case(case, ctx):
         'coop': (vtargets.coop_loop, [100000, started]), 'swallow': (vtargets.swallow_everything, [escape, started]),
         'sleep': (vtargets.sleep_forever, [started]), 'gil': (vtargets.hold_gil, [started]), 'stop': (vtargets.stop_self, [started]),
         'finished': (vtargets.quick_return, [7]), 'norun': (vtargets.quick_return, [7]), 'linger': (vtargets.linger, [started, 40]),
+        'stop_mid_send': (vtargets.big_after_start, [6000000, started]),
     }[beh]
     kw = {'name': name}
     host = None
@@ -100,7 +103,7 @@ def run_case(case, ctx):
         kw['host'] = IC.server(ctx).addr
     if beh == 'norun':
         kw['run'] = False
-    live_uncoop = beh in ('swallow', 'sleep', 'gil', 'stop', 'linger', 'host_vanished')
+    live_uncoop = beh in ('swallow', 'sleep', 'gil', 'stop', 'linger', 'host_vanished', 'stop_mid_send')
     w = None
     records = []
     site0 = f'{kind}:{beh}' + (('_ctrl_' + case.get('ctrl', 'rst')) if beh == 'host_vanished' else '')
@@ -122,6 +125,17 @@ def run_case(case, ctx):
                 out.excluded = 'fake host did not reach its vanishing point'
                 return out
             time.sleep(0.15)
+        elif beh == 'stop_mid_send':
+            t_end = time.monotonic() + 8
+            while not os.path.exists(started) and time.monotonic() < t_end:
+                time.sleep(0.005)
+            time.sleep(0.4)          # the child has filled the pipe and sleeps in write()
+            try:
+                os.kill(pid, signal.SIGSTOP)
+            except ProcessLookupError:
+                out.excluded = 'child gone before it could be stopped'
+                return out
+            time.sleep(0.1)
         elif beh in ('coop', 'swallow', 'sleep', 'gil', 'stop', 'linger'):
             t_end = time.monotonic() + 8
             while not os.path.exists(started) and time.monotonic() < t_end:
